@@ -1122,10 +1122,14 @@ where
     fn skip_escaped_chars(&mut self) -> Result<()> {
         match self.read.peek() {
             Some(b'u') => {
-                if self.read.remain() < 6 {
+                self.read.eat(1);
+                let Some(hex) = self.read.next_n(4) else {
                     return perr!(self, EofWhileParsing);
-                } else {
-                    self.read.eat(5);
+                };
+                // the four bytes after `\u` must be hex digits
+                let code = unsafe { hex_to_u32_nocheck(&*(hex.as_ptr() as *const [u8; 4])) };
+                if code > 0xFFFF {
+                    return perr!(self, InvalidUnicodeCodePoint);
                 }
             }
             Some(c) => {
